@@ -59,33 +59,51 @@ vars == <<cfg, out>>
 
 -----------------------------------------------------------------------------
 (* small helpers *)
-RECURSIVE SumTo(_, _)
-SumTo(f, n) == IF n = 0 THEN 0 ELSE f[n] + SumTo(f, n - 1)
+(* TLC evaluates operator arguments and LET definitions by name (again at every reference).
+   With(v, Op) evaluates v ONCE and evaluates Op with its parameter bound to that value. *)
+With(v, Op(_)) == CHOOSE r \in {Op(x) : x \in {v}} : TRUE
+
+RECURSIVE SumRec(_, _)
+SumRec(f, n) == IF n = 0 THEN 0 ELSE f[n] + SumRec(f, n - 1)       \* f must be a bound value
+SumTo(f0, n) == With(f0, LAMBDA f : SumRec(f, n))
 Sum(f) == SumTo(f, Len(f))
 
 Idx(n) == [i \in 1..n |-> i]
 Norm(q) == IF q[2] < 0 THEN <<0 - q[1], 0 - q[2]>> ELSE q
 None == <<0, 0>>            \* "no value" (e.g. get_mean() = None)
 
-(* determinant by recursive Laplace expansion along the first row *)
-Minor(A, i, j) ==
-  LET n == Len(A)
-  IN [r \in 1..(n - 1) |-> [s \in 1..(n - 1) |->
-        A[IF r < i THEN r ELSE r + 1][IF s < j THEN s ELSE s + 1]]]
+(* determinant by recursive Laplace expansion (along the last row, which holds the zero block of
+   a kriging matrix) on index lists: DetRC(A, rs, cs) is the determinant of the sub-matrix of A
+   with rows rs and columns cs; sizes <= 3 are the written-out expansions *)
+Drop(s, j) == [k \in 1..(Len(s) - 1) |-> IF k < j THEN s[k] ELSE s[k + 1]]
+Sign(k) == IF k % 2 = 0 THEN 1 ELSE -1
 
-RECURSIVE Det(_)
-Det(A) ==
-  IF Len(A) = 0 THEN 1
-  ELSE IF Len(A) = 1 THEN A[1][1]
-  ELSE LET n == Len(A)
-           term(j) == IF A[1][j] = 0 THEN 0
-                      ELSE (IF j % 2 = 1 THEN 1 ELSE -1) * A[1][j] * Det(Minor(A, 1, j))
-       IN SumTo([j \in 1..n |-> term(j)], n)
+RECURSIVE DetRC(_, _, _)
+DetRC(A, rs, cs) ==      \* A, rs, cs must be bound values
+  LET n == Len(rs) IN
+  IF n = 0 THEN 1
+  ELSE IF n = 1 THEN A[rs[1]][cs[1]]
+  ELSE IF n = 2 THEN A[rs[1]][cs[1]] * A[rs[2]][cs[2]] - A[rs[1]][cs[2]] * A[rs[2]][cs[1]]
+  ELSE IF n = 3 THEN
+       LET a == A[rs[1]]  b == A[rs[2]]  d == A[rs[3]]
+           p == cs[1]  q == cs[2]  r == cs[3]
+       IN   a[p] * (b[q] * d[r] - b[r] * d[q])
+          - a[q] * (b[p] * d[r] - b[r] * d[p])
+          + a[r] * (b[p] * d[q] - b[q] * d[p])
+  ELSE With(SubSeq(rs, 1, n - 1), LAMBDA rs1 :
+         SumTo([j \in 1..n |->
+                 IF A[rs[n]][cs[j]] = 0 THEN 0
+                 ELSE Sign(n + j) * A[rs[n]][cs[j]] * With(Drop(cs, j), LAMBDA cs1 : DetRC(A, rs1, cs1))], n))
 
-Cofactors(A) ==
-  LET n == Len(A)
-  IN [i \in 1..n |-> [j \in 1..n |->
-        (IF (i + j) % 2 = 0 THEN 1 ELSE -1) * Det(Minor(A, i, j))]]
+Det(A0) == With(A0, LAMBDA A : With(Idx(Len(A)), LAMBDA id : DetRC(A, id, id)))
+
+(* cofactor matrix of a SYMMETRIC matrix (so it equals the adjugate); upper triangle computed *)
+Cofactors(A) ==          \* A must be a bound value
+  With(Idx(Len(A)), LAMBDA id :
+    With([i \in 1..Len(A) |-> [j \in 1..Len(A) |->
+            IF i <= j THEN Sign(i + j) * With(Drop(id, i), LAMBDA ri : With(Drop(id, j), LAMBDA cj : DetRC(A, ri, cj)))
+            ELSE 0]],
+         LAMBDA up : [i \in 1..Len(A) |-> [j \in 1..Len(A) |-> IF i <= j THEN up[i][j] ELSE up[j][i]]]))
 
 -----------------------------------------------------------------------------
 (* covariance family: correlation * DD at squared distance d2 *)
@@ -145,86 +163,87 @@ RepIdx(c) == IF Merges(c)
              ELSE Idx(Len(c.pos))
 Prime(c) == [i \in 1..Len(c.pos) |-> c.val[i] - Lin(c.trend, c.pos[i]) - Lin(c.mean, c.pos[i])]
 
-Sys(c) ==
-  LET rep == RepIdx(c)
-      N   == Len(rep)
-      n   == Len(c.pos)
-      zp  == Prime(c)
-      e   == ErrOf(c)
-      grp(g) == {i \in 1..n : c.pos[i] = c.pos[rep[g]]}
-      cnt(g) == IF Merges(c) THEN Cardinality(grp(g)) ELSE 1
-      zs(g)  == IF Merges(c)
-                THEN (MM \div cnt(g)) * SumTo([i \in 1..n |-> IF i \in grp(g) THEN zp[i] ELSE 0], n)
-                ELSE zp[rep[g]]
-  IN [P |-> [g \in 1..N |-> c.pos[rep[g]]],
-      Z |-> [g \in 1..N |-> zs(g)],
-      E |-> [g \in 1..N |-> e[rep[g]]],
-      cnt |-> [g \in 1..N |-> cnt(g)],
-      M |-> IF Merges(c) THEN MM ELSE 1]
+Sys(c) ==                \* c must be a bound value
+  With(RepIdx(c), LAMBDA rep : With(Prime(c), LAMBDA zp : With(ErrOf(c), LAMBDA e : With(Merges(c), LAMBDA mg :
+    LET N == Len(rep)
+        n == Len(c.pos)
+        grp(g) == {i \in 1..n : c.pos[i] = c.pos[rep[g]]}
+        cnt(g) == IF mg THEN Cardinality(grp(g)) ELSE 1
+        zs(g)  == IF mg
+                  THEN (MM \div cnt(g)) * SumTo([i \in 1..n |-> IF c.pos[i] = c.pos[rep[g]] THEN zp[i] ELSE 0], n)
+                  ELSE zp[rep[g]]
+    IN [P |-> [g \in 1..N |-> c.pos[rep[g]]],
+        Z |-> [g \in 1..N |-> zs(g)],
+        E |-> [g \in 1..N |-> e[rep[g]]],
+        cnt |-> [g \in 1..N |-> cnt(g)],
+        M |-> IF mg THEN MM ELSE 1]))))
 
 (* documented layout of the kriging matrix (covariance block in units 1/DD) *)
-KMat(c, P, E) ==
-  LET N == Len(P)  F == FTags(c)  sz == N + Len(F)
-  IN [i \in 1..sz |-> [j \in 1..sz |->
-        IF i <= N /\ j <= N THEN CovInt(c, P[i], P[j]) + (IF i = j THEN E[i] * DD(c) ELSE 0)
-        ELSE IF i <= N THEN FVal(F[j - N], P[i])
-        ELSE IF j <= N THEN FVal(F[i - N], P[j])
-        ELSE 0]]
+KMat(c, P, E) ==         \* c, P, E must be bound values
+  With(FTags(c), LAMBDA F : With(DD(c), LAMBDA dd :
+    [i \in 1..(Len(P) + Len(F)) |-> [j \in 1..(Len(P) + Len(F)) |->
+        IF i <= Len(P) /\ j <= Len(P) THEN CovInt(c, P[i], P[j]) + (IF i = j THEN E[i] * dd ELSE 0)
+        ELSE IF i <= Len(P) THEN FVal(F[j - Len(P)], P[i])
+        ELSE IF j <= Len(P) THEN FVal(F[i - Len(P)], P[j])
+        ELSE 0]]))
 
 (* right-hand side for target t (covariances in units 1/DD) *)
-Rhs(c, P, t, onlyMean) ==
-  LET N == Len(P)  F == FTags(c)  sz == N + Len(F)
-  IN [i \in 1..sz |->
-        IF i <= N THEN (IF onlyMean THEN 0
-                        ELSE IF c.exact THEN CovNugInt(c, P[i], t) ELSE CovInt(c, P[i], t))
-        ELSE FVal(F[i - N], t)]
+Rhs(c, P, t, onlyMean) ==        \* c, P, t must be bound values
+  With(FTags(c), LAMBDA F :
+    [i \in 1..(Len(P) + Len(F)) |->
+        IF i <= Len(P) THEN (IF onlyMean THEN 0
+                             ELSE IF c.exact THEN CovNugInt(c, P[i], t) ELSE CovInt(c, P[i], t))
+        ELSE FVal(F[i - Len(P)], t)])
 
 Rejects(c) == c.exact /\ c.err.mode # "nugget"
 
 -----------------------------------------------------------------------------
-Solve(c) ==
-  LET s   == Sys(c)
-      P   == s.P
-      N   == Len(P)
-      F   == FTags(c)
-      sz  == N + Len(F)
-      K   == KMat(c, P, s.E)
-      cof == Cofactors(K)
-      det == SumTo([j \in 1..sz |-> K[1][j] * cof[1][j]], sz)
-      T   == Len(c.tgt)
-      \* x(t) * det, Cramer's rule
-      xnum(r) == [j \in 1..sz |-> SumTo([i \in 1..sz |-> cof[j][i] * r[i]], sz)]
-      estnum(x) == SumTo([i \in 1..N |-> x[i] * s.Z[i]], N)
-      shift(t) == Lin(c.mean, t) + Lin(c.trend, t)
-      fld(t, om) == LET x == xnum(Rhs(c, P, t, om))
-                    IN Norm(<<shift(t) * s.M * det + estnum(x), s.M * det>>)
-      vr(t) == LET r == Rhs(c, P, t, FALSE)
-                   x == xnum(r)
-                   q == Norm(<<SillInt(c) * det - SumTo([j \in 1..sz |-> x[j] * r[j]], sz), DD(c) * det>>)
-               IN q
-      gmean == IF c.drift # 0 \/ c.ext # "none" \/ c.mean[2] # 0 THEN None
-               ELSE IF c.unb
-                    THEN Norm(<<c.mean[1] * s.M * det + SumTo([i \in 1..N |-> cof[i][N + 1] * s.Z[i]], N),
-                                s.M * det>>)
-                    ELSE <<c.mean[1], 1>>
-      full == KMat(c, c.pos, ErrOf(c))
-  IN IF Rejects(c)
-     THEN [status |-> "Rejected", det |-> 0, dd |-> DD(c), field |-> <<>>, rawvar |-> <<>>, var |-> <<>>,
-           meanfield |-> <<>>, gmean |-> None, kmat |-> <<>>, rhs |-> <<>>, edc |-> <<>>, edt |-> <<>>,
-           merged |-> FALSE]
-     ELSE [status |-> "ok", det |-> det, dd |-> DD(c),
-           field     |-> [k \in 1..T |-> fld(c.tgt[k], FALSE)],
-           rawvar    |-> [k \in 1..T |-> vr(c.tgt[k])],
-           var       |-> [k \in 1..T |-> LET q == vr(c.tgt[k]) IN IF q[1] < 0 THEN <<0, 1>> ELSE q],
-           meanfield |-> [k \in 1..T |-> fld(c.tgt[k], TRUE)],
-           gmean     |-> gmean,
-           kmat      |-> full,
-           rhs       |-> [k \in 1..T |-> Rhs(c, c.pos, c.tgt[k], FALSE)],
-           edc       |-> IF c.ext = "none" THEN <<>> ELSE [i \in 1..Len(c.pos) |-> ExtVal(c.ext, c.pos[i])],
-           edt       |-> IF c.ext = "none" THEN <<>> ELSE [k \in 1..T |-> ExtVal(c.ext, c.tgt[k])],
-           merged    |-> Merges(c)]
+MatVec(cof, r) == [j \in 1..Len(r) |-> SumTo([i \in 1..Len(r) |-> cof[j][i] * r[i]], Len(r))]
+Dot(x, y, n)   == SumTo([i \in 1..n |-> x[i] * y[i]], n)
 
-SysDet(c) == LET s == Sys(c) IN Det(KMat(c, s.P, s.E))
+Rejected(c) ==
+  [status |-> "Rejected", det |-> 0, dd |-> DD(c), field |-> <<>>, rawvar |-> <<>>, var |-> <<>>,
+   meanfield |-> <<>>, gmean |-> None, kmat |-> <<>>, rhs |-> <<>>, edc |-> <<>>, edt |-> <<>>,
+   merged |-> FALSE]
+
+(* every intermediate result is bound once (With); x(t) * det by Cramer's rule = cofactors * rhs *)
+Solve5(c, s, K, cof, det) ==
+  LET P == s.P  N == Len(s.P)  sz == Len(K)  T == Len(c.tgt)  den == s.M * det
+      shift(t) == Lin(c.mean, t) + Lin(c.trend, t)
+  IN
+  With([k \in 1..T |-> Rhs(c, P, c.tgt[k], FALSE)], LAMBDA R :
+  With([k \in 1..T |-> Rhs(c, P, c.tgt[k], TRUE)],  LAMBDA RM :
+  With([k \in 1..T |-> MatVec(cof, R[k])],  LAMBDA X :
+  With([k \in 1..T |-> MatVec(cof, RM[k])], LAMBDA XM :
+  With([k \in 1..T |-> Norm(<<SillInt(c) * det - Dot(X[k], R[k], sz), DD(c) * det>>)], LAMBDA VR :
+    [status |-> "ok", det |-> det, dd |-> DD(c),
+     field     |-> [k \in 1..T |-> Norm(<<shift(c.tgt[k]) * den + Dot(X[k], s.Z, N), den>>)],
+     rawvar    |-> VR,
+     var       |-> [k \in 1..T |-> IF VR[k][1] < 0 THEN <<0, 1>> ELSE VR[k]],
+     meanfield |-> [k \in 1..T |-> Norm(<<shift(c.tgt[k]) * den + Dot(XM[k], s.Z, N), den>>)],
+     gmean     |-> IF c.drift # 0 \/ c.ext # "none" \/ c.mean[2] # 0 THEN None
+                   ELSE IF c.unb
+                        THEN Norm(<<c.mean[1] * den + SumTo([i \in 1..N |-> cof[i][N + 1] * s.Z[i]], N), den>>)
+                        ELSE <<c.mean[1], 1>>,
+     kmat      |-> With(ErrOf(c), LAMBDA e : With(c.pos, LAMBDA pp : KMat(c, pp, e))),
+     rhs       |-> With(c.pos, LAMBDA pp : [k \in 1..T |-> With(c.tgt[k], LAMBDA t : Rhs(c, pp, t, FALSE))]),
+     edc       |-> IF c.ext = "none" THEN <<>> ELSE [i \in 1..Len(c.pos) |-> ExtVal(c.ext, c.pos[i])],
+     edt       |-> IF c.ext = "none" THEN <<>> ELSE [k \in 1..T |-> ExtVal(c.ext, c.tgt[k])],
+     merged    |-> Merges(c)])))))
+
+SolveV(c) ==             \* c must be a bound value
+  IF Rejects(c) THEN Rejected(c)
+  ELSE With(Sys(c), LAMBDA s :
+       With(s.P, LAMBDA P : With(s.E, LAMBDA E :
+       With(KMat(c, P, E), LAMBDA K :
+       With(Cofactors(K), LAMBDA cof :
+       With(SumTo([j \in 1..Len(K) |-> K[1][j] * cof[1][j]], Len(K)), LAMBDA det :
+         Solve5(c, s, K, cof, det)))))))
+
+Solve(c0) == With(c0, LAMBDA c : SolveV(c))
+
+SysDet(c) ==             \* c must be a bound value
+  With(Sys(c), LAMBDA s : With(s.P, LAMBDA P : With(s.E, LAMBDA E : Det(KMat(c, P, E)))))
 
 (* admissible configurations: documented precondition err <= nugget; non-singular (reduced) system *)
 Valid(c) ==
@@ -252,10 +271,10 @@ Init ==
   \E m \in Models, v \in Variants, ps \in PosSets, L \in Lens, vr \in Vars, ng \in Nugs,
      ex \in Exacts, er \in ErrSpecs :
     \E z \in ValSeqs[Len(ps)] :
-      LET c == MkCfg(m, v, ps, z, L, vr, ng, ex, er)
-      IN /\ Valid(c)
+      \E c \in {MkCfg(m, v, ps, z, L, vr, ng, ex, er)} :
+         /\ Valid(c)
          /\ cfg = c
-         /\ out = Solve(c)
+         /\ out = SolveV(c)
 
 Next == UNCHANGED vars
 
